@@ -77,6 +77,8 @@ structure Syms where
   fixF3 : Bool := false
   /-- the code WITH fixes_proposed/C05-F4.diff (brackets stripped before the `_` test and in `^…`) -/
   fixF4 : Bool := false
+  /-- the code WITH fixes_proposed/C05-F2.diff (a pattern with only `_` arguments stays a function pattern) -/
+  fixF2 : Bool := false
   deriving Repr
 
 def varName (v : Sym) : Str := "var".toList ++ (toString v.idx).toList
@@ -151,10 +153,10 @@ def isAny : Tok Sym → Bool
   | _ => false
 
 /-- the tail of `parse_specification` (:254-262) -/
-def assemble (elements : List (Tok Sym)) : Option (Tok Sym) :=
+def assemble (fixF2 : Bool) (elements : List (Tok Sym)) : Option (Tok Sym) :=
   match elements with
   | [] => none                                      -- assert len(elements) > 0
-  | .allow S :: rest => if rest.all isAny then some .any else some (.func S rest)
+  | .allow S :: rest => if !fixF2 && rest.all isAny then some .any else some (.func S rest)
   | [e] => some e
   | _ => none                                       -- assert len(elements) == 1
 
@@ -182,7 +184,7 @@ def parseSpec (Sy : Syms) : Nat → Str → Option (Tok Sym)
     let spec := stripChars (fun c => c = ')' || c = '(') (removeChar '\n' spec0)
     match parseWords Sy (parseSpec Sy fuel) (spec.length + 1) spec 0 with
     | none => none
-    | some elements => assemble elements
+    | some elements => assemble Sy.fixF2 elements
 
 /-- `parse_specification` with enough fuel -/
 def parse (Sy : Syms) (s : Str) : Option (Tok Sym) := parseSpec Sy (s.length + 1) s
